@@ -240,27 +240,55 @@ def r141(ctx, rep, f, ev, cg, reach):
         if adds or eqs:
             rep.check(not bad, "R14.1", "R14.1|overflow-guard|Stats::%s" % p_.split("::")[-1], "no counter that grows by more than one is protected only by `== u32::MAX`", WST,
                       "%s adds %s to a u32 counter and flushes only when the sum is exactly u32::MAX: the maximum is stepped over (wrap in release, panic in debug)" % (p_.split("::")[-1], [a[2] for a in bad]))
-    recs = _recs(ev, ST + "add_payload_size", [Sym("self"), Sym("x")], follow=lambda c: c.startswith(ST))
-    ca = "sym(call:core::num::<impl u32>::checked_add(sym(self.payload_size_seen),sym(cast(sym(x) as u32))))"
-    asg = [(o["assign"], tuple(o["guard"])) for o in recs if "assign" in o]
-    snd = [(o["args"][1], tuple(o["guard"])) for o in recs if "call" in o and o["call"].endswith("::send")]
-    ok = sorted(asg) == sorted([(("=", "sym(self.payload_size_seen)", "sym(payload(%s,Some))" % ca), ("symc(isSome(%s))" % ca,)),
-                                (("=", "sym(self.payload_size_seen)", "sym(cast(sym(x) as u32))"), ("symc(isNone(%s))" % ca,))]) \
-        and snd == [("InputStatType::PayloadSize(0=sym(self.payload_size_seen))", ("symc(isNone(%s))" % ca,))]
-    rep.check(ok, "R14.1", "R14.1|counter|add_payload_size", "add_payload_size: checked sum; on overflow the accumulated size is sent and the counter restarts with the new size (no loss)", WST,
-              "add_payload_size: assignments %s sends %s" % (asg, snd))
+    # add_payload_size, decided per outcome of the checked sum (the form of the branch — match, if-let, early return — is free)
+    seen_args = []
+
+    def _events(path, hooks):
+        ev.call_hooks = hooks
+        try:
+            recs = _recs(ev, path, [Sym("self"), Sym("x")], follow=lambda c: c.startswith(ST))
+        except Unsupported:
+            return None
+        finally:
+            ev.call_hooks = []
+        out = []
+        for o in recs:
+            if any(g in ("false", "not true") for g in o.get("guard", ())):
+                continue
+            g = tuple(x for x in o.get("guard", ()) if x not in ("true", "not false"))
+            if "assign" in o:
+                out.append(("assign",) + tuple(o["assign"]) + (g,))
+            elif "call" in o and not o["call"].startswith(ST):
+                out.append(("call", o["call"].split("::")[-1], tuple(o["args"]), g))
+        return out
+    want = {"sum": [("assign", "=", "sym(self.payload_size_seen)", "sym(SUM)", ())],
+            "overflow": [("call", "send", ("sym(self.reporter)", "InputStatType::PayloadSize(0=sym(self.payload_size_seen))"), ()),
+                         ("assign", "=", "sym(self.payload_size_seen)", "sym(cast(sym(x) as u32))", ())]}
+    got = {}
+    for case, res in (("sum", Agg("core::option::Option", "Some", {"0": Sym("SUM")})), ("overflow", Agg("core::option::Option", "None", {}))):
+        def hk(n, a, res=res):
+            seen_args.append(tuple(vkey(x) for x in a))
+            return res
+        got[case] = _events(ST + "add_payload_size", [(lambda fn_, r_: (r_ or fn_).endswith("::checked_add"), hk)])
+    ok = got == want and set(seen_args) == {("sym(self.payload_size_seen)", "sym(cast(sym(x) as u32))")}
+    rep.check(ok, "R14.1", "R14.1|counter|add_payload_size", "add_payload_size: checked sum of the counter and the size; on overflow the accumulated size is sent and the counter restarts with the new size (no loss)", WST,
+              "add_payload_size: checked_add%s; events per outcome %s, expected %s" % (sorted(set(seen_args)), got, want))
     recs = _recs(ev, ST + "flush_stats", [Sym("self")], follow=lambda c: c.startswith(ST))
     snd = sorted(o["args"][1] for o in recs if "call" in o and o["call"].endswith("::send") and not o["guard"])
     exp = sorted(["InputStatType::RDHSeen(0=sym(self.rdhs_seen))", "InputStatType::RDHFiltered(0=sym(self.rdhs_filtered))", "InputStatType::PayloadSize(0=sym(self.payload_size_seen))"])
     rep.check(snd == exp, "R14.1", "R14.1|flush|content", "flush_stats sends the three counters under their own variant", WST, "flush_stats sends %s" % snd)
+    # try_add_*: decided per outcome of the membership test (guard form is free: if !contains {..} or early return)
     for m, fld, var in (("try_add_link", "unique_links_observed", "LinksObserved"), ("try_add_fee_id", "unique_feeids_observed", "FeeId")):
-        recs = _recs(ev, ST + m, [Sym("self"), Sym("x")], follow=lambda c: c.startswith(ST))
-        g = [ckey(o["cond"]) for o in recs if "cond" in o]
-        calls = [(o["call"].split("::")[-1], o["args"], tuple(o["guard"])) for o in recs if "call" in o]
-        ok = len(g) == 1 and g[0].startswith("symc(sym(Not(sym(call:core::slice::<impl [T]>::contains(") and ("self.%s" % fld) in g[0] and g[0].endswith(",sym(x))))))") \
-            and sorted(c[0] for c in calls) == ["push", "send"] and all(c[2] == (g[0],) for c in calls) \
-            and any(c[0] == "push" and c[1] == ["sym(self.%s)" % fld, "sym(x)"] for c in calls) and any(c[0] == "send" and c[1][1] == "InputStatType::%s(0=sym(x))" % var for c in calls)
-        rep.check(ok, "R14.1", "R14.1|unique|%s" % m, "%s: reported and remembered once per distinct value" % m, WST, "%s: guard %s calls %s" % (m, [x[:80] for x in g], [(c[0], c[1]) for c in calls]))
+        cargs = []
+        got = {}
+        for case in (True, False):
+            def hk(n, a, case=case):
+                cargs.append(tuple(re.sub(r"^sym\(call:<alloc::vec::Vec<T, A> as core::ops::deref::Deref>::deref\((.*)\)\)$", r"\1", vkey(x)) for x in a))
+                return Cond("true" if case else "false")
+            got[case] = _events(ST + m, [(lambda fn_, r_: (r_ or fn_).endswith("::contains"), hk)])
+        want = {True: [], False: sorted([("call", "push", ("sym(self.%s)" % fld, "sym(x)"), ()), ("call", "send", ("sym(self.reporter)", "InputStatType::%s(0=sym(x))" % var), ())])}
+        ok = got[True] == [] and got[False] is not None and sorted(got[False]) == want[False] and set(cargs) == {("sym(self.%s)" % fld, "sym(x)")}
+        rep.check(ok, "R14.1", "R14.1|unique|%s" % m, "%s: reported and remembered once per distinct value" % m, WST, "%s: membership test %s; events when present %s, when absent %s" % (m, sorted(set(cargs)), got[True], got[False]))
     # drop flushes
     dp = "<alice_protocol_reader::input_scanner::InputScanner<R> as core::ops::drop::Drop>::drop"
     recs = _recs(ev, dp, [Sym("self")]) if dp in f.fns else []
